@@ -481,7 +481,9 @@ def rule_cli_fwd(repo, col, which=None):
         f = repo.func(rel, '_export_metadata')
         c = [n for n in body_walk(f) if isinstance(n, ast.Call) and
              (call_name(n) or '').endswith('.metadata_to_dataframe')]
-        ok = len(c) == 1 and c[0].args and dotted(c[0].args[0]) == 'axis'
+        from .astutil import arg_of
+        ok = len(c) == 1 and dotted(arg_of(c[0], 0, 'axis')
+                                    or ast.Constant(None)) == 'axis'
         col.check(ok, rule, rel, '_export_metadata', 'forward:axis',
                   c[0] if c else f, 'axis forwarded',
                   'axis is not forwarded to metadata_to_dataframe')
